@@ -277,8 +277,10 @@ Proof.
   destruct (agg_suffix a) as [b|]; [reflexivity|]. destruct (agg_prefix a) as [b|]; [reflexivity|discriminate].
 Qed.
 
-(* sum(rate({a="b"}[5s])) over the streams {a="b",c="1"} and {a="b",c="2"}, one line each in one window: the SQL side (and
-   metric_ref, which follows the code) reports the two streams with 0.2 each; the definition one series {} with 0.4 *)
+(* sum(rate({a="b"}[5s])) over the streams {a="b",c="1"} and {a="b",c="2"}, one line each in one window: the ClickHouse planners
+   GIVEN THE SCRIPT AS WRITTEN (and metric_ref, which follows them) report the two streams with 0.2 each; the definition one
+   series {} with 0.4. Since the repair of agg-without-grouping-keeps-streams the reader's entry point hands them norm_script of
+   the script (below: ungrouped_sum_is_one_series); this lemma records what clickhouse_planner.Plan does on its own. *)
 Definition ng_sel : strsel := {| sel_matchers := [{| m_name := "a"; m_op := MEq; m_val := "b" |}]%string; sel_pipeline := [] |}.
 Definition ng_script : script :=
   SAgg {| agg_f := ASum; agg_prefix := None;
@@ -301,3 +303,176 @@ Proof.
 Qed.
 Example vector_aggregation_partial_hyp : agg_grouped ex_script = true /\ agg_grouped dk_script = true.
 Proof. split; reflexivity. Qed.
+
+(* ---------- repair of agg-without-grouping-keeps-streams: the reader's entry point gives a vector aggregation written
+   without clause the grouping `by ()` (groupByNothing in /repo = norm_script); the plan of the normalised script computes
+   the DEFINITION of the script as written ---------- *)
+Lemma norm_script_selector s : stream_selector (norm_script s) = stream_selector s.
+Proof.
+  destruct s as [q|l|a|t|q|]; try reflexivity.
+  - unfold norm_script, norm_agg. destruct (agg_prefix a), (agg_suffix a); reflexivity.
+  - unfold norm_script. destruct t as [tp ln arg cm]. cbn [tk_arg]. destruct arg as [l|a|q]; try reflexivity.
+    unfold norm_agg. destruct (agg_prefix a), (agg_suffix a); reflexivity.
+Qed.
+Lemma norm_script_first_lra s : first_lra (norm_script s) = first_lra s.
+Proof.
+  destruct s as [q|l|a|t|q|]; try reflexivity.
+  - unfold norm_script, norm_agg. destruct (agg_prefix a), (agg_suffix a); reflexivity.
+  - unfold norm_script. destruct t as [tp ln arg cm]. cbn [tk_arg]. destruct arg as [l|a|q]; try reflexivity.
+    unfold norm_agg. destruct (agg_prefix a), (agg_suffix a); reflexivity.
+Qed.
+Lemma norm_script_analyze s : analyze_m15 (norm_script s) = analyze_m15 s.
+Proof. unfold analyze_m15. now rewrite norm_script_first_lra. Qed.
+Lemma norm_script_duration s : get_duration (norm_script s) = get_duration s.
+Proof.
+  destruct s as [q|l|a|t|q|]; try reflexivity.
+  - unfold norm_script, norm_agg. destruct (agg_prefix a), (agg_suffix a); reflexivity.
+  - unfold norm_script. destruct t as [tp ln arg cm]. cbn [tk_arg]. destruct arg as [l|a|q]; try reflexivity.
+    unfold norm_agg. destruct (agg_prefix a), (agg_suffix a); reflexivity.
+Qed.
+Lemma norm_script_ok s : script_ok (norm_script s) <-> script_ok s.
+Proof.
+  destruct s as [q|l|a|t|q|]; try tauto.
+  - unfold norm_script, norm_agg. destruct (agg_prefix a), (agg_suffix a); cbn; tauto.
+  - unfold norm_script. destruct t as [tp ln arg cm]. cbn [tk_arg]. destruct arg as [l|a|q]; cbn; tauto.
+Qed.
+Lemma norm_script_grouped s : agg_grouped (norm_script s) = true.
+Proof.
+  destruct s as [q|l|a|t|q|]; try reflexivity.
+  - unfold norm_script, norm_agg, agg_grouped. destruct (agg_prefix a) eqn:E1, (agg_suffix a) eqn:E2; cbn; rewrite ?E1, ?E2; reflexivity.
+  - unfold norm_script. destruct (tk_arg t); reflexivity.
+Qed.
+Lemma norm_script_idem s : norm_script (norm_script s) = norm_script s.
+Proof.
+  destruct s as [q|l|a|t|q|]; try reflexivity.
+  - unfold norm_script, norm_agg. destruct (agg_prefix a) eqn:E1, (agg_suffix a) eqn:E2; cbn; rewrite ?E1, ?E2; reflexivity.
+  - unfold norm_script. destruct t as [tp ln arg cm]. cbn [tk_arg]. destruct arg as [l|a|q]; try reflexivity. cbn [tk_arg].
+    unfold norm_agg. destruct (agg_prefix a) eqn:E1, (agg_suffix a) eqn:E2; cbn; rewrite ?E1, ?E2; reflexivity.
+Qed.
+
+(* the definition (a vector aggregation without clause yields ONE series {}) of the script as written is the reference of
+   the script the planners get *)
+Lemma metric_ref_def_norm to_float quantile_o varpop stddevpop s c es :
+  metric_ref_def to_float quantile_o varpop stddevpop s c es = metric_ref to_float quantile_o varpop stddevpop (norm_script s) c es.
+Proof.
+  destruct s as [q|l|a|t|q|]; try reflexivity.
+  - unfold norm_script, norm_agg.
+    destruct (agg_prefix a) as [b1|] eqn:E1; [apply metric_ref_def_grouped_proof; unfold agg_grouped; rewrite E1; now destruct (agg_suffix a)|].
+    destruct (agg_suffix a) as [b2|] eqn:E2; [apply metric_ref_def_grouped_proof; unfold agg_grouped; now rewrite E2|].
+    unfold metric_ref_def, metric_ref, ref_aggop_def, ref_aggop, ref_agg_def, ref_agg, grouping. cbn [agg_lra agg_cmp agg_f agg_prefix agg_suffix].
+    rewrite E1, E2. cbn [get_duration agg_lra].
+    assert (H : forall m, regroup (Some by_nothing) m = regroup_def None m).
+    { intros m. unfold regroup, regroup_def, by_nothing, bw_map. cbn [bw_labels bw_by]. induction m as [|kv m IH]; [reflexivity|exact IH]. }
+    destruct (ref_lra to_float varpop stddevpop (agg_lra a) es) as [v|]; [|reflexivity].
+    rewrite (map_ext (fun r : vrow => {| v_labels := regroup (Some by_nothing) (v_labels r); v_ts := v_ts r; v_val := v_val r |})
+                     (fun r : vrow => {| v_labels := regroup_def None (v_labels r); v_ts := v_ts r; v_val := v_val r |}));
+      [reflexivity | intros r; now rewrite H].
+  - unfold norm_script. destruct (tk_arg t); reflexivity.
+Qed.
+
+(* THE DEFINITION, for every script written with or without a grouping clause: the statement planned for the script the reader's
+   entry point hands over (norm_script s) computes metric_ref_def of the script AS WRITTEN - a vector aggregation without clause
+   yields one series with the empty label set. (Before the repair: vector_aggregation_without_grouping_refuted.) *)
+Theorem metric_correct_definition :
+  forall (fp : lmap -> N) (to_float : string -> Qc) (quantile_o : string -> list Qc -> Qc) (varpop stddevpop : list Qc -> Qc),
+  (forall a b, fp a = fp b -> a = b) ->
+  forall c base s fin p,
+  analyze_m15 s = false -> plan_metric (norm_script s) fin = Some p -> script_ok s ->
+  0 < c_step_ns c -> consistent base -> nonneg base ->
+  option_map (map strip) (sem fp to_float quantile_o varpop stddevpop p c base) =
+  metric_ref_def to_float quantile_o varpop stddevpop s c (map entry_of base).
+Proof.
+  intros fp to_float quantile_o varpop stddevpop Hfp c base s fin p Ha Hp Hok Hs Hc Hn.
+  rewrite metric_ref_def_norm.
+  apply (metric_correct fp to_float quantile_o varpop stddevpop Hfp c base (norm_script s) fin p); try assumption.
+  - now rewrite norm_script_analyze.
+  - now apply norm_script_ok.
+Qed.
+(* the same for the scripts answered from the roll-up table *)
+Theorem shortcut_metric_correct_definition :
+  forall (fp : lmap -> N) (to_float : string -> Qc) (quantile_o : string -> list Qc -> Qc) (varpop stddevpop : list Qc -> Qc),
+  (forall a b, fp a = fp b -> a = b) ->
+  forall c base s fin p,
+  analyze_m15 s = true -> plan_metric (norm_script s) fin = Some p ->
+  (match s with SLra _ | SAgg _ => True | _ => False end) ->
+  0 < c_step_ns c -> consistent base -> nonneg base ->
+  option_map (map strip) (sem fp to_float quantile_o varpop stddevpop p c base) =
+  metric_ref_def to_float quantile_o varpop stddevpop s c (map entry_of base).
+Proof.
+  intros fp to_float quantile_o varpop stddevpop Hfp c base s fin p Ha Hp Hk Hs Hc Hn.
+  rewrite metric_ref_def_norm.
+  apply (shortcut_metric_correct fp to_float quantile_o varpop stddevpop Hfp c base (norm_script s) fin p); try assumption.
+  - now rewrite norm_script_analyze.
+  - destruct s; try contradiction; exact I.
+Qed.
+(* ... and over stored data *)
+Theorem metric_correct_db_definition :
+  forall re_match parse_float json_get (hash_labels : LogqlSem.labels -> Z),
+  (forall a b, hash_labels a = hash_labels b -> a = b) -> (forall a, 0 <= hash_labels a) ->
+  forall (fp : lmap -> N) (to_float : string -> Qc) (quantile_o : string -> list Qc -> Qc) (varpop stddevpop : list Qc -> Qc),
+  (forall a b, fp a = fp b -> a = b) ->
+  forall c d s fin p base,
+  analyze_m15 s = false -> plan_metric (norm_script s) fin = Some p -> script_ok s -> 0 < c_step_ns c ->
+  db_ok c d -> fp_of_labels_ok d -> 0 <= c_from_ns c ->
+  Permutation base (base_of re_match parse_float json_get hash_labels s c d) ->
+  option_map (map strip) (sem fp to_float quantile_o varpop stddevpop p c base)
+    = metric_ref_def to_float quantile_o varpop stddevpop s c (map entry_of base)
+  /\ Permutation (map entry_of base) (map entry_of_out (log_lines re_match parse_float json_get hash_labels s c d)).
+Proof.
+  intros re_match parse_float json_get hash_labels Hinj Hnn fp to_float quantile_o varpop stddevpop Hfp c d s fin p base
+    Ha Hp Hok Hs Hdb Hfl Hc Hperm.
+  rewrite metric_ref_def_norm.
+  assert (Eb : base_of re_match parse_float json_get hash_labels (norm_script s) c d = base_of re_match parse_float json_get hash_labels s c d).
+  { unfold base_of, log_lines, log_part. now rewrite norm_script_selector. }
+  assert (El : log_lines re_match parse_float json_get hash_labels (norm_script s) c d = log_lines re_match parse_float json_get hash_labels s c d).
+  { unfold log_lines, log_part. now rewrite norm_script_selector. }
+  rewrite <- El.
+  apply (metric_correct_db re_match parse_float json_get hash_labels Hinj Hnn fp to_float quantile_o varpop stddevpop Hfp c d (norm_script s) fin p base);
+    try assumption.
+  - now rewrite norm_script_analyze.
+  - now apply norm_script_ok.
+  - now rewrite Eb.
+Qed.
+
+(* the former witness of the finding: sum(rate({a="b"}[5s])) over the streams {a="b",c="1"} and {a="b",c="2"}, one line each in
+   one window. The planners, given the script as written, still keep the two streams (plan_metric ng_script: what
+   clickhouse_planner.Plan does without the entry point); the reader hands over norm_script ng_script = sum(...) by (), whose
+   statement yields the definition's ONE series {} with 0.4 - for every oracle. *)
+Theorem ungrouped_sum_is_one_series :
+  forall re_match parse_float json_get (hash_labels : LogqlSem.labels -> Z),
+  (forall a b, hash_labels a = hash_labels b -> a = b) -> (forall a, 0 <= hash_labels a) ->
+  forall (fp : lmap -> N) to_float quantile_o varpop stddevpop, (forall a b, fp a = fp b -> a = b) ->
+  exists p, plan_metric (norm_script ng_script) true = Some p /\ analyze_m15 ng_script = false /\ script_ok ng_script /\
+    db_ok dk_ctx dk_db /\ fp_of_labels_ok dk_db /\ agg_grouped ng_script = false /\
+    option_map (map (fun r => (v_labels r, v_ts r, this (v_val r))))
+      (option_map (map strip) (sem fp to_float quantile_o varpop stddevpop p dk_ctx (base_of re_match parse_float json_get hash_labels ng_script dk_ctx dk_db)))
+      = Some [([], 1700000000000000000, (2 # 5)%Q)] /\
+    option_map (map (fun r => (v_labels r, v_ts r, this (v_val r))))
+      (metric_ref_def to_float quantile_o varpop stddevpop ng_script dk_ctx
+         (map entry_of_out (log_lines re_match parse_float json_get hash_labels ng_script dk_ctx dk_db)))
+      = Some [([], 1700000000000000000, (2 # 5)%Q)].
+Proof.
+  intros re_match parse_float json_get hash_labels Hinj Hnn fp to_float quantile_o varpop stddevpop Hfp.
+  assert (Hp : exists p, plan_metric (norm_script ng_script) true = Some p) by (eexists; reflexivity). destruct Hp as [p Hp].
+  assert (Href : option_map (map (fun r => (v_labels r, v_ts r, this (v_val r))))
+      (metric_ref_def to_float quantile_o varpop stddevpop ng_script dk_ctx
+         (map entry_of_out (log_lines re_match parse_float json_get hash_labels ng_script dk_ctx dk_db)))
+      = Some [([], 1700000000000000000, (2 # 5)%Q)]) by (vm_compute; reflexivity).
+  exists p. split; [exact Hp|]. split; [reflexivity|]. split; [cbv; reflexivity|].
+  split; [apply dk_db_ok|]. split; [apply dk_db_ok|]. split; [reflexivity|]. split; [|exact Href].
+  assert (Hok : script_ok ng_script) by (cbv; reflexivity).
+  assert (Hs : 0 < c_step_ns dk_ctx) by reflexivity.
+  assert (Hc : 0 <= c_from_ns dk_ctx) by (cbn; lia).
+  destruct (metric_correct_db_definition re_match parse_float json_get hash_labels Hinj Hnn fp to_float quantile_o varpop stddevpop Hfp
+              dk_ctx dk_db ng_script true p (base_of re_match parse_float json_get hash_labels ng_script dk_ctx dk_db) (eq_refl _) Hp
+              Hok Hs (proj1 dk_db_ok) (proj2 dk_db_ok) Hc (Permutation_refl _)) as [E _].
+  rewrite E. rewrite <- Href. f_equal.
+Qed.
+Example metric_correct_definition_hyp :
+  analyze_m15 ng_script = false /\ (exists p, plan_metric (norm_script ng_script) true = Some p) /\ script_ok ng_script /\
+  agg_grouped ng_script = false /\ norm_script ng_script <> ng_script.
+Proof. split; [reflexivity|]. split; [eexists; reflexivity|]. split; [cbv; reflexivity|]. split; [reflexivity|]. discriminate. Qed.
+Lemma norm_script_facts to_float quantile_o varpop stddevpop s c es :
+  metric_ref_def to_float quantile_o varpop stddevpop s c es = metric_ref to_float quantile_o varpop stddevpop (norm_script s) c es
+  /\ agg_grouped (norm_script s) = true /\ norm_script (norm_script s) = norm_script s.
+Proof. split; [apply metric_ref_def_norm|split; [apply norm_script_grouped|apply norm_script_idem]]. Qed.
